@@ -31,9 +31,10 @@ pub fn level_sequences(n: usize) -> Vec<Vec<u16>> {
 
 fn forest_sprite(levels: &[u16], vis_mask: u64) -> Sprite {
     let n = levels.len();
-    // very large forests carry no pixels (x offsets are i16, the canvas u16)
-    let pixels = n <= 20_000;
-    let mut sp = Sprite::blank(if pixels { n as u16 } else { 1 }, 1, Fmt::Rgba, 1);
+    // the canvas is at most 4096 wide: leaf i sits at x = i mod width (higher layers paint over lower ones)
+    let pixels = true;
+    let width = n.min(4096);
+    let mut sp = Sprite::blank(width as u16, 1, Fmt::Rgba, 1);
     for i in 0..n {
         let has_child = i + 1 < n && levels[i + 1] > levels[i];
         let mut l = LayerM::image(&format!("l{}", i));
@@ -41,10 +42,10 @@ fn forest_sprite(levels: &[u16], vis_mask: u64) -> Sprite {
         l.flags = 2 | ((vis_mask >> (i % 64)) & 1) as u16;
         if has_child {
             l.kind = LayerKind::Group;
-        } else if pixels {
+        } else if pixels && i <= 65_535 {
             // unique opaque colour at x = layer index
             let col = [(i * 37 % 251) as u8 + 1, (i / 251) as u8, (i % 7) as u8 * 30 + 5, 255];
-            sp.cels.insert((0, i as u16), CelM { x: i as i16, y: 0, opacity: 255, content: CelContentM::Image { w: 1, h: 1, pixels: col.to_vec() }, ud: None });
+            sp.cels.insert((0, i as u16), CelM { x: (i % width) as i16, y: 0, opacity: 255, content: CelContentM::Image { w: 1, h: 1, pixels: col.to_vec() }, ud: None });
         }
         sp.layers.push(l);
     }
@@ -87,25 +88,36 @@ fn check_forest(sp: &Sprite, what: &str) -> (u64, Option<Violation>) {
         }
         leaves += 2;
     }
-    if n > 20_000 {
-        return (leaves, None);
-    }
     let img = ase.frame(0).image();
-    if img.width() as usize != n.min(65535) || img.height() != 1 {
+    let width = n.min(4096);
+    if img.width() as usize != width || img.height() != 1 {
         return (leaves, mk("frame-dim", format!("frame image {}x{}", img.width(), img.height())));
     }
+    // expected: at each x the topmost visible leaf whose index is congruent to x (opaque Normal layers)
+    let mut top: Vec<Option<usize>> = vec![None; width];
     for i in 0..n {
-        let px = img.get_pixel(i as u32, 0).0;
-        let cel = sp.cels.get(&(0, i as u16));
-        let expect_visible = cel.is_some() && visible[i];
-        if expect_visible {
-            if let Some(CelM { content: CelContentM::Image { pixels, .. }, .. }) = cel {
-                if px[..] != pixels[..] {
-                    return (leaves, mk("visible-pixel", format!("pixel {} = {:?}, expected visible layer colour {:?}", i, px, pixels)));
+        // (cel keys are u16: layers beyond 65535 cannot carry cels)
+        if i <= 65_535 && visible[i] && sp.cels.contains_key(&(0, i as u16)) {
+            top[i % width] = Some(i);
+        }
+    }
+    for x in 0..width {
+        let px = img.get_pixel(x as u32, 0).0;
+        match top[x] {
+            Some(i) => {
+                if let Some(CelM { content: CelContentM::Image { pixels, .. }, .. }) = sp.cels.get(&(0, i as u16)) {
+                    if px[..] != pixels[..] {
+                        let short = |v: &Vec<u16>| if v.len() > 24 { format!("{:?}.. ({} layers)", &v[..24], v.len()) } else { format!("{:?}", v) };
+                        return (leaves, mk(if px[3] == 0 { "visible-pixel-missing" } else { "hidden-pixel" }, format!("pixel {} = {:?}, expected the colour {:?} of visible layer {} (levels {}, flags {})", x, px, pixels, i, short(&levels), short(&flags))));
+                    }
                 }
             }
-        } else if px[3] != 0 {
-            return (leaves, mk("hidden-pixel", format!("pixel {} = {:?} although layer {} is hidden (own flag {}, levels {:?}, flags {:?})", i, px, i, flags[i], levels, flags)));
+            None => {
+                if px[3] != 0 {
+                    let short = |v: &Vec<u16>| if v.len() > 24 { format!("{:?}.. ({} layers)", &v[..24], v.len()) } else { format!("{:?}", v) };
+                    return (leaves, mk("hidden-pixel", format!("pixel {} = {:?} although every layer at that position is hidden or a group (levels {}, flags {})", x, px, short(&levels), short(&flags))));
+                }
+            }
         }
         leaves += 1;
     }
@@ -180,6 +192,89 @@ pub fn run(ctx: &Ctx) -> i32 {
         res
     });
     sum.merge(rnd);
+    // ---- the format's extremes: nesting depth 65535 and subtrees with more than 65535 descendants --------
+    let nshape = ctx.tier.pick(10u64, 40u64);
+    let ext = run_stage(ctx, "extreme-shapes", nshape, |i| {
+        let mut rng = Rng::derive(ctx.seed, "C09-extreme", i);
+        let (levels, flags, name): (Vec<u16>, Vec<u16>, &str) = match i % 10 {
+            0 => ((0..=65_535u32).map(|l| l as u16).collect(), vec![3; 65_536], "chain to depth 65535, all visible"),
+            1 => {
+                let mut f = vec![3u16; 65_536];
+                f[65_535] = 2;
+                ((0..=65_535u32).map(|l| l as u16).collect(), f, "chain to depth 65535, only the deepest layer hidden")
+            }
+            2 => {
+                let mut f = vec![3u16; 65_536];
+                f[0] = 2;
+                ((0..=65_535u32).map(|l| l as u16).collect(), f, "chain to depth 65535, only the root hidden")
+            }
+            3 => {
+                let mut f = vec![3u16; 65_536];
+                let k = rng.range(1, 65_534) as usize;
+                f[k] = 2;
+                ((0..=65_535u32).map(|l| l as u16).collect(), f, "chain to depth 65535, one interior group hidden")
+            }
+            4 => {
+                // hidden root with more than 65535 direct children
+                let n = *rng.pick(&[65_537usize, 66_000, 70_000]);
+                let mut l = vec![1u16; n];
+                l[0] = 0;
+                let mut f = vec![3u16; n];
+                f[0] = 2;
+                (l, f, "hidden root with > 65535 children")
+            }
+            5 => {
+                let n = *rng.pick(&[65_537usize, 66_000, 70_000]);
+                let mut l = vec![1u16; n];
+                l[0] = 0;
+                (l, vec![3u16; n], "visible root with > 65535 children")
+            }
+            6 => {
+                // two-level: hidden root, one visible sub-group holding > 65535 leaves, then a sibling of the root
+                let n = 66_100usize;
+                let mut l = vec![2u16; n];
+                l[0] = 0;
+                l[1] = 1;
+                l[n - 1] = 0;
+                let mut f = vec![3u16; n];
+                f[0] = 2;
+                (l, f, "hidden root > visible group > 66k leaves, then a top-level sibling")
+            }
+            7 => {
+                // depth 300 chain repeated
+                let l: Vec<u16> = (0..3000u32).map(|k| (k % 300) as u16).collect();
+                let f: Vec<u16> = (0..3000).map(|_| 2 | rng.chance(19, 20) as u16).collect();
+                (l, f, "ten chains of depth 300")
+            }
+            8 => {
+                let n = 65_536usize;
+                let l: Vec<u16> = (0..n).map(|k| (k % 2) as u16).collect();
+                let f: Vec<u16> = (0..n).map(|_| 2 | rng.chance(3, 4) as u16).collect();
+                (l, f, "65536 layers alternating level 0 / 1")
+            }
+            _ => {
+                let n = 65_536usize;
+                let l: Vec<u16> = (0..n).map(|k| k.min(65_535) as u16).collect();
+                let f: Vec<u16> = (0..n).map(|k| if k % 9000 == 8999 { 2 } else { 3 }).collect();
+                (l, f, "chain to depth 65535 with a hidden group every 9000 levels")
+            }
+        };
+        let mut sp = forest_sprite(&levels, 0);
+        for (l, fl) in sp.layers.iter_mut().zip(flags.iter()) {
+            l.flags = *fl;
+        }
+        let (leaves, v) = check_forest(&sp, "extreme");
+        let mut res = CaseResult::ok(crate::rng::hash_str(name) ^ i, leaves, "extreme-shape");
+        res.count("extreme_shape_layers", levels.len() as u64);
+        if let Some(v) = v {
+            res.violations.push(v);
+        }
+        if i < 10 {
+            res.sample = Some(json!({"extreme_shape": name, "layers": levels.len()}));
+        }
+        res
+    });
+    sum.merge(ext);
     let exhaustive_sprites = sum.counters.get("exhaustive_sprites").cloned().unwrap_or(0);
     finish(
         ctx,
